@@ -604,6 +604,8 @@ soxr_error_t soxr_clear(soxr_t p) /* TODO: this, properly. */
 {
   if (p) {
     struct soxr tmp = *p;
+    if (tmp.error && !tmp.control_block[9]) /* Torn down by a fatal error: */
+      return tmp.error;                     /* nothing is left to restart from. */
     soxr_delete0(p);
     memset(p, 0, sizeof(*p));
     p->input_fn = tmp.input_fn;
